@@ -162,7 +162,9 @@ def gen_solve(d: Draw, planet_id, sol_id, spec):
         o['solve_for'] = list(sf or ['tidal'])
         o['solve_for_as_list'] = True
     elif fault == 'mangle':
-        op['mangle'] = {'kind': d.pick(['short_array', 'wrong_dtype', 'noncontiguous', 'layer_type', 'tuple_len', 'upper_radius_list']),
+        op['mangle'] = {'kind': d.pick(['short_array', 'wrong_dtype', 'noncontiguous', 'layer_type', 'tuple_len', 'upper_radius_list',
+                                        'empty_interior_layer', 'empty_interior_layer', 'upper_radius_not_increasing',
+                                        'first_upper_radius_zero']),
                         'which': d.below(5)}
     elif fault == 'degree':
         o['degree_l'] = d.pick([0, 1])
@@ -351,6 +353,15 @@ class SolverFaultsEngine(EngineBase):
                      % (i, label, REPLY_TIMEOUT_S, ctx['stack']), op=op['op'], **ctx['predicates'])
                 break
             replies.append(reply)
+            if 'worker_exception' in reply and (ctx['predicates'].get('expected_size_1') or ctx['predicates'].get('limit_solution_off')):
+                # the worker's own bookkeeping after the call blew up: with these two options the interpreter's heap is
+                # corrupted (C06-K9 / K10), which can surface as anything - same finding as an outright crash
+                trace.append('%2d %s -> interpreter state corrupted after the call: %s' % (i, label, reply['worker_exception'][:120]))
+                viol('crash', 'corrupted:%s' % ctx['stack_class'],
+                     'step %d %s left the interpreter corrupted (%s); planet: %s' % (i, label, reply['worker_exception'][:160], ctx['stack']),
+                     signal='corrupted', op=op['op'], **ctx['predicates'])
+                _WORKER.close()
+                break
             if 'worker_exception' in reply:
                 harness_errors.append('worker exception at step %d %s: %s %s' % (i, label, reply['worker_exception'], reply.get('tb', '')))
                 break
